@@ -14,8 +14,11 @@ import (
 	"os"
 	"sort"
 	"strings"
+	"sync"
+	"time"
 
 	"github.com/samsarahq/thunder/graphql"
+	"github.com/samsarahq/thunder/reactive"
 
 	ex "verifharness/drv/exec"
 	"verifharness/internal/gallery"
@@ -299,7 +302,7 @@ type Rec struct {
 	Res      tj.T       `json:"res"`
 }
 
-func runOne(schema *graphql.Schema, text string) (r Rec) {
+func runOne(schema *graphql.Schema, text string, cached bool) (r Rec) {
 	r.Res = tj.T{K: "n"}
 	r.Outcome = "none"
 	defer func() {
@@ -319,7 +322,29 @@ func runOne(schema *graphql.Schema, text string) (r Rec) {
 		return
 	}
 	r.Prepared = true
-	val, err := graphql.NewExecutor(ex.NewSeqScheduler("fifo")).Execute(context.Background(), schema.Query, nil, q)
+	var val interface{}
+	if cached {
+		// as the HTTP handler and the websocket server do: inside a reactive computation, expensive fields cached
+		done := make(chan struct{})
+		var once sync.Once
+		rr := reactive.NewRerunner(context.Background(), func(ctx context.Context) (interface{}, error) {
+			v, e := graphql.NewExecutor(graphql.NewImmediateGoroutineScheduler()).Execute(ctx, schema.Query, nil, q)
+			once.Do(func() {
+				val, err = v, e
+				close(done)
+			})
+			return nil, nil
+		}, time.Hour, false)
+		select {
+		case <-done:
+			rr.Stop()
+		case <-time.After(20 * time.Second):
+			r.Outcome, r.Err = "hang", "Execute inside a reactive computation did not return within 20 s"
+			return
+		}
+	} else {
+		val, err = graphql.NewExecutor(ex.NewSeqScheduler("fifo")).Execute(context.Background(), schema.Query, nil, q)
+	}
 	if err != nil {
 		r.Outcome, r.Err = "error", err.Error()
 		return
@@ -373,7 +398,7 @@ func Main(args []string) error {
 	g := &gen{r: rand.New(rand.NewSource(*seed)), s: adv}
 	emit := func(i int, q *ex.SelSet, mut string) {
 		text := ex.RenderPlain(q)
-		r := runOne(schema, text)
+		r := runOne(schema, text, i%2 == 1)
 		r.I, r.Text, r.Q, r.Mutation = i, text, q, mut
 		w.Write(r)
 	}
@@ -393,8 +418,36 @@ func Main(args []string) error {
 		}
 		return w.Close()
 	}
+	// directed: the same object reached at two places, the same field selected at both under one response key
+	// with different sub-selections (the fields of each place must be exactly the ones selected there)
+	twice := func() *ex.SelSet {
+		names := g.fields("Shapes")
+		var f string
+		for k := 0; k < 50; k++ {
+			f = names[g.r.Intn(len(names))]
+			if kd := g.s.Types[base(g.s.Types["Shapes"].Fields[f])].Kind; kd == "OBJECT" || kd == "UNION" {
+				break
+			}
+			f = "mExpensive"
+		}
+		mk := func(root string) *ex.Sel {
+			inner := g.sel("Shapes", f, 2)
+			inner.Alias = f
+			return &ex.Sel{Alias: root, Name: root, Dirs: []ex.Dir{}, HasSub: true, ArgText: gallery.FixedArgs[adv.Query+"."+root],
+				Sub: &ex.SelSet{Sels: []*ex.Sel{inner}, Frags: []*ex.Frag{}}}
+		}
+		roots := [][2]string{{"shapes", "shapeList"}, {"shapeList", "shapes"}, {"shapes", "shapes"}}[g.r.Intn(3)]
+		a, b := mk(roots[0]), mk(roots[1])
+		if roots[0] == roots[1] {
+			b.Alias = "again"
+		}
+		return &ex.SelSet{Sels: []*ex.Sel{a, b}, Frags: []*ex.Frag{}}
+	}
 	for i := 0; i < *n; i++ {
 		q := g.set(adv.Query, 3)
+		if i%8 == 7 {
+			q = twice()
+		}
 		mut := ""
 		if g.r.Intn(3) == 0 {
 			mut = g.mutate(q)
